@@ -9,8 +9,8 @@ import matplotlib
 import numpy as np
 from hypothesis import strategies as st
 
-from pyoma2.algorithms import FDD, SSIcov, pLSCF
-from pyoma2.algorithms.data.result import FDDResult, SSIResult, pLSCFResult
+from pyoma2.algorithms import EFDD, FDD, FSDD, SSIcov, pLSCF
+from pyoma2.algorithms.data.result import EFDDResult, FDDResult, SSIResult, pLSCFResult
 from pyoma2.functions import fdd
 from pyoma2.setup import SingleSetup
 
@@ -36,22 +36,37 @@ FS = 50.0
 # ---------------------------------------------------------------------------
 # algorithm with installed results
 # ---------------------------------------------------------------------------
-def _install(kind, t, fs=None):
+def _install(kind, t, fs=None, ordmin=0):
     Fn = t["Fn"]
     ss = SingleSetup(np.zeros((16, t["Phi"].shape[2])), fs=FS if fs is None else fs)
     if kind == "SSI":
-        alg = SSIcov(name="a", br=4, ordmax=Fn.shape[1] - 1)
+        alg = SSIcov(name="a", br=4, ordmax=Fn.shape[1] - 1, ordmin=min(ordmin, Fn.shape[1] - 1))
         ss.add_algorithms(alg)
         alg.result = SSIResult(Fn_poles=Fn.copy(), Xi_poles=t["Xi"].copy(), Phi_poles=t["Phi"].copy(), Lab=t["Lab"].copy())
     else:
-        alg = pLSCF(name="a", ordmax=Fn.shape[1])
+        alg = pLSCF(name="a", ordmax=Fn.shape[1], ordmin=min(ordmin, Fn.shape[1] - 1))
         ss.add_algorithms(alg)
         alg.result = pLSCFResult(Fn_poles=Fn.copy(), Xi_poles=t["Xi"].copy(), Phi_poles=t["Phi"].copy(), Lab=t["Lab"].copy())
     return ss, alg
 
 
+BELL = {"fr": 0.2, "xi": 0.03, "phi": [1.0, 0.6, -0.4]}  # one resolved mode at 0.2 fs for the EFDD / FSDD dialogs
+EF_KW = dict(DF1=0.6, DF2=3.0)  # non-default analysis bands
+
+
 def _install_fdd(case):
     rng = rng_of(case["seed"])
+    if case.get("fddcls", "FDD") != "FDD":
+        from .c07 import _matrix
+
+        nf = 513
+        freq, Sy, _, _, _ = _matrix(dict(BELL, fs=FS, nxseg=2 * (nf - 1)))
+        ss = SingleSetup(np.zeros((16, 3)), fs=FS)
+        alg = (EFDD if case["fddcls"] == "EFDD" else FSDD)(name="a", nxseg=2 * (nf - 1))
+        ss.add_algorithms(alg)
+        sv = fdd.SD_svalsvec(Sy)
+        alg.result = EFDDResult(freq=freq, Sy=Sy, S_val=sv[0], S_vec=sv[1])
+        return ss, alg, freq
     n, nf = 3, case["nf"]
     freq = np.arange(nf) * (FS / 2) / (nf - 1)
     F = rng.normal(size=(n, n, nf)) + 1j * rng.normal(size=(n, n, nf))
@@ -122,8 +137,18 @@ def _play(j, dlg, kind, actions, Fn, freq, real_events):
             y = np.float64(min(max(y, y0 + 0.02 * (y1 - y0)), y1 - 0.02 * (y1 - y0)))
             if kind != "FDD" and a["act"] == "select" and a["shift"]:
                 o_ = int(np.argmin(np.abs(np.arange(Fn.shape[1]) - y)))
-                if not np.isfinite(Fn[:, o_]).any() or abs(abs(y - o_) - 0.5) < 0.05:
-                    j.skip("click-on-empty-order")
+                if abs(abs(y - o_) - 0.5) < 0.05:
+                    j.skip("click-between-two-orders")
+                    continue
+                if not np.isfinite(Fn[:, o_]).any():
+                    # a pick aimed at an order without retained poles selects nothing (the handler may raise); what is
+                    # selected stays as it is and the two lists stay in step
+                    sut(headless.click, dlg, x, y, button)
+                    got = state()
+                    j.tag("pick-on-empty-order")
+                    if not j.check(got is not None and sorted(got, key=_key) == sorted(before, key=_key), "empty-order-pick-changed-selection",
+                                   lambda: f"step {step}: a pick at order {o_} (no retained pole) changed the selection {before} -> {got} (frequencies {list(dlg.sel_freq)}, orders {list(dlg.pole_ind)})"):
+                        return None
                     continue
             r = sut(headless.click, dlg, x, y, button)
         else:
@@ -202,14 +227,16 @@ def judge_dialog(case):
     else:
         t = _table(case["table"])
         fsc = float(case["table"].get("fscale", 1.0))
-        ss, alg = _install(kind, t, fs=FS * fsc)
+        ss, alg = _install(kind, t, fs=FS * fsc, ordmin=case.get("ordmin", 0))
         Fn, freq = t["Fn"], None
+        if case.get("ordmin"):
+            j.tag("ordmin>0")
         if case.get("prior"):
             # modes were extracted on this object before the dialog is opened: the dialog's selection replaces them
             cells = np.argwhere(np.isfinite(Fn))
             if len(cells):
                 i_, o_ = [int(v) for v in cells[case["prior"] % len(cells)]]
-                sut(ss.mpe, "a", sel_freq=[float(Fn[i_, o_])], order=o_ if kind == "SSI" else o_ + 1, rtol=1e-6)
+                sut(ss.mpe, "a", sel_freq=[float(Fn[i_, o_])], order=o_, rtol=1e-6)
                 j.tag("modes-extracted-before")
 
     def script(dlg):
@@ -224,7 +251,9 @@ def judge_dialog(case):
     if fsc != 1.0:
         j.tag("frequency-unit-scaled")
     with headless.patched(script, fast=not real):
-        if kind == "FDD":
+        if kind == "FDD" and case.get("fddcls", "FDD") != "FDD":
+            r = sut(ss.mpe_from_plot, "a", freqlim=(fl[0], fl[1]), **EF_KW)
+        elif kind == "FDD":
             r = sut(ss.mpe_from_plot, "a", freqlim=(fl[0], fl[1]), DF=1.0)
         else:
             r = sut(ss.mpe_from_plot, "a", freqlim=(fl[0] * fsc, fl[1] * fsc), rtol=1e-6)
@@ -239,8 +268,20 @@ def judge_dialog(case):
             j.check(not raised(r), "mpe-from-plot-raises", lambda: f"{r!r}")
         # hand-over: the selected frequency lines
         j.check(sorted(float(f) for f in holder["final"][0]) == sorted(p[0] for p in model), "handover", lambda: f"handed over {holder['final'][0]}, selected {model}")
+        efd = case.get("fddcls", "FDD") != "FDD"
+        j.tag("class=" + case.get("fddcls", "FDD"))
         if model and not raised(r):
-            j.check(np.asarray(alg.result.Fn).shape == (len(model),), "extracted-count", lambda: f"{np.asarray(alg.result.Fn).shape} modes for {len(model)} selected lines")
+            j.check(np.asarray(alg.result.Fn).reshape(-1).shape == (len(model),), "extracted-count", lambda: f"{np.asarray(alg.result.Fn).shape} modes for {len(model)} selected lines")
+        if model:
+            # the dialog is only another way of choosing sel_freq: a twin object given the handed-over lines (and the same
+            # analysis bands) through the non-interactive mpe must produce the same modes
+            ss2, alg2, _ = _install_fdd(case)
+            r2 = sut(ss2.mpe, "a", sel_freq=[float(f) for f in holder["final"][0]], **(EF_KW if efd else dict(DF=1.0)))
+            if raised(r) or raised(r2):
+                j.check(raised(r) and raised(r2), "interactive-differs", lambda: f"mpe_from_plot: {r!r}; mpe with the same lines and bands: {r2!r}")
+            else:
+                same = all(np.array_equal(np.asarray(getattr(alg.result, k_)), np.asarray(getattr(alg2.result, k_)), equal_nan=True) for k_ in (("Fn", "Xi", "Phi") if efd else ("Fn", "Phi")))
+                j.check(same, "interactive-differs", lambda: f"mpe_from_plot gives Fn={np.asarray(alg.result.Fn).tolist()}, mpe with the same lines and bands gives {np.asarray(alg2.result.Fn).tolist()}")
         return j
     if not j.check(not raised(r), "mpe-from-plot-raises", lambda: f"{r!r}"):
         return j
@@ -253,6 +294,18 @@ def judge_dialog(case):
     if j.check(fn.size == len(model) and oo.size == len(model), "extracted-count", lambda: f"{fn.size} modes / {oo.size} orders extracted for {len(model)} selected poles {model}"):
         got = sorted(((float(f), int(o)) for f, o in zip(fn, oo)), key=_key)
         j.check(got == sorted(model, key=_key), "extracted-poles", lambda: f"extracted (fn, order) pairs {got} differ from the picked poles {sorted(model, key=_key)}")
+        # differential: a twin object given the same pairs through the non-interactive mpe returns the same modes
+        ss2, alg2 = _install(kind, t, fs=FS * fsc, ordmin=case.get("ordmin", 0))
+        pairs = sorted(model, key=_key)
+        r2 = sut(ss2.mpe, "a", sel_freq=[p[0] for p in pairs], order=[int(p[1]) for p in pairs], rtol=1e-6)
+        if j.check(not raised(r2), "twin-mpe-raises", lambda: f"{r2!r}"):
+            def rows(res_):
+                F, X, P, O = np.asarray(res_.Fn).reshape(-1), np.asarray(res_.Xi).reshape(-1), np.asarray(res_.Phi), np.asarray(res_.order_out).reshape(-1)
+                if P.ndim != 2 or P.shape[1] != F.size or X.size != F.size:
+                    return None
+                return sorted((float(F[q]), int(O[q]), float(X[q]), tuple(np.round(P[:, q], 12).tolist())) for q in range(F.size))
+            a_, b_ = rows(res), rows(alg2.result)
+            j.check(a_ is not None and a_ == b_, "interactive-differs", lambda: f"modes after the dialog {a_} differ from mpe(sel_freq, order list) on a twin object {b_}")
     return j
 
 
@@ -307,7 +360,7 @@ def enum_dialog(kind):
 def machine_case(draw, kind):
     c = {"kind": kind, "real_events": True}
     if kind == "FDD":
-        c.update(seed=draw(st.integers(0, 2**32 - 1)), nf=draw(st.sampled_from([33, 65, 129])))
+        c.update(seed=draw(st.integers(0, 2**32 - 1)), nf=draw(st.sampled_from([33, 65, 129])), fddcls=draw(st.sampled_from(["FDD", "FDD", "EFDD", "FSDD"])))
         fmax, cols = FS / 2, None
     else:
         tc = draw(tables.table_case(max_rows=8, max_cols=12, min_cols=3))
@@ -324,17 +377,20 @@ def machine_case(draw, kind):
     fsc = 1.0 if kind == "FDD" else c["table"]["fscale"]
     c["freqlim"] = draw(st.sampled_from([None, None, [3.0, 21.0], [6.5, 24.0], [0.0, 12.0]]))
     c["prior"] = draw(st.sampled_from([0, 0, 1, 5, 11])) if kind != "FDD" else 0
+    c["ordmin"] = draw(st.sampled_from([0, 0, 2, 4])) if kind != "FDD" else 0  # poles below ordmin stay in the tables and on the chart
     xlo, xhi = (0.3, 24.5) if c["freqlim"] is None else (c["freqlim"][0] + 0.2, c["freqlim"][1] - 0.2)
     acts = []
     for _ in range(draw(st.integers(1, 6))):
         a = draw(st.sampled_from(["select", "select", "select", "deselect_one", "deselect_nearest"]))
         x = draw(st.floats(xlo, xhi)) * fsc
+        if kind == "FDD" and c.get("fddcls") != "FDD":
+            x = BELL["fr"] * FS + draw(st.floats(-0.8, 0.8))  # picks on the bell (elsewhere the damping fit has nothing to fit)
         if kind == "FDD":
             y = draw(st.floats(-40.0, -1.0))
         else:
-            o = draw(st.sampled_from(cols))
+            o = draw(st.sampled_from(cols * 4 + list(range(c["table"]["cols"]))))  # now and then an order that holds no retained pole
             y = o + draw(st.floats(-0.45, 0.45))
-            y = min(max(y, 0.05), max(cols) + 0.45)
+            y = min(max(y, 0.05), c["table"]["cols"] - 1 + 0.45)
         act = {"act": a, "x": x, "y": y, "shift": draw(st.integers(0, 5)) != 0}
         if a == "deselect_nearest" and draw(st.booleans()):
             act["mid"] = [draw(st.integers(0, 3)), draw(st.sampled_from([0.02, -0.02, 0.2, -0.2, 0.45, -0.45]))]
